@@ -1147,4 +1147,419 @@ theorem purgePush_spec (h : Bool) (body : List Node) (rets : List Ret) : ∀ (m 
       | const v => simp only; rw [a4]; simp [hs]
       | none => simp only; rw [a4]; simp [hs]
 
+
+theorem applyConsts_spec (n : Node) : ∀ (ss : List Src) (i0 : Nat) (τ : St),
+    SameOut (applyConsts n ss i0 τ) τ ∧ (∀ h, Inv h n τ → Inv h n (applyConsts n ss i0 τ)) ∧
+    (∀ i, (applyConsts n ss i0 τ).get .inp i =
+      match (if i0 ≤ i then ss[i - i0]? else none) with
+      | some (.const v) => v
+      | _ => τ.get .inp i) := by
+  intro ss
+  induction ss with
+  | nil =>
+    intro i0 τ
+    simp only [applyConsts]
+    refine ⟨SameOut.refl τ, fun _ h => h, ?_⟩
+    intro i; split <;> simp_all
+  | cons s ss ih =>
+    intro i0 τ
+    have hidx : ∀ i, i0 + 1 ≤ i → (s :: ss)[i - i0]? = ss[i - (i0 + 1)]? := by
+      intro i hi
+      have : i - i0 = (i - (i0 + 1)) + 1 := by omega
+      rw [this]; simp
+    cases s with
+    | const v =>
+      simp only [applyConsts]
+      obtain ⟨b1, b2, b3⟩ := ih (i0 + 1) (setIn n τ i0 v)
+      refine ⟨b1.trans (setIn_sameOut n τ i0 v), fun h hi => b2 h (setIn_inv h n τ i0 v hi), ?_⟩
+      intro i
+      rw [b3 i]
+      by_cases hi : i0 + 1 ≤ i
+      · have h0 : i0 ≤ i := by omega
+        simp only [hi, h0, if_true, hidx i hi]
+        split
+        · rfl
+        · rw [setIn_get_inp]; simp; omega
+      · simp only [hi, if_false]
+        rw [setIn_get_inp]
+        by_cases he : i = i0
+        · subst he; simp
+        · have : ¬ i0 ≤ i := by omega
+          simp [he, this]
+    | arg k =>
+      simp only [applyConsts]
+      obtain ⟨b1, b2, b3⟩ := ih (i0 + 1) τ
+      refine ⟨b1, b2, ?_⟩
+      intro i
+      rw [b3 i]
+      by_cases hi : i0 + 1 ≤ i
+      · have h0 : i0 ≤ i := by omega
+        simp only [hi, h0, if_true, hidx i hi]
+      · simp only [hi, if_false]
+        by_cases he : i = i0
+        · subst he; simp
+        · have : ¬ i0 ≤ i := by omega
+          simp [this]
+    | out a b =>
+      simp only [applyConsts]
+      obtain ⟨b1, b2, b3⟩ := ih (i0 + 1) τ
+      refine ⟨b1, b2, ?_⟩
+      intro i
+      rw [b3 i]
+      by_cases hi : i0 + 1 ≤ i
+      · have h0 : i0 ≤ i := by omega
+        simp only [hi, h0, if_true, hidx i hi]
+      · simp only [hi, if_false]
+        by_cases he : i = i0
+        · subst he; simp
+        · have : ¬ i0 ≤ i := by omega
+          simp [this]
+    | none =>
+      simp only [applyConsts]
+      obtain ⟨b1, b2, b3⟩ := ih (i0 + 1) τ
+      refine ⟨b1, b2, ?_⟩
+      intro i
+      rw [b3 i]
+      by_cases hi : i0 + 1 ≤ i
+      · have h0 : i0 ≤ i := by omega
+        simp only [hi, h0, if_true, hidx i hi]
+      · simp only [hi, if_false]
+        by_cases he : i = i0
+        · subst he; simp
+        · have : ¬ i0 ≤ i := by omega
+          simp [this]
+
+theorem buildBody_spec : ∀ (ns : List Node) (j : Nat) (σ : St),
+    (∀ p k, (buildBody ns j σ).get p k = σ.get p k) ∧
+    (∀ t n, ns[t]? = some n → (buildBody ns j σ).sub (j + t) = applyConsts n n.srcs 0 (build n)) ∧
+    (∀ jj, (jj < j ∨ j + ns.length ≤ jj) → (buildBody ns j σ).sub jj = σ.sub jj) := by
+  intro ns
+  induction ns with
+  | nil =>
+    intro j σ
+    simp only [buildBody]
+    exact ⟨by intros; trivial, by intro t n h; simp at h, by intros; trivial⟩
+  | cons m ns ih =>
+    intro j σ
+    simp only [buildBody]
+    obtain ⟨b1, b2, b3⟩ := ih (j + 1) (σ.graft j (applyConsts m m.srcs 0 (build m)))
+    refine ⟨fun p k => by rw [b1, St.get_graft], ?_, ?_⟩
+    · intro t n ht
+      cases t with
+      | zero =>
+        simp at ht; subst ht
+        show (buildBody ns (j + 1) _).sub j = _
+        rw [b3 j (Or.inl (by omega)), St.sub_graft_same]
+      | succ t =>
+        have := b2 t n (by simpa using ht)
+        have e : j + (t + 1) = j + 1 + t := by omega
+        rw [e]; exact this
+    · intro jj hjj
+      rw [b3 jj (by rcases hjj with h | h
+                    · left; omega
+                    · right; simp at h; omega)]
+      exact St.sub_graft_other _ _ _ _ (by rcases hjj with h | h
+                                           · omega
+                                           · simp at h; omega)
+
+theorem build_root (args : List Arg) (body : List Node) (rets : List Ret) (oh : List Nat) (s : List Src)
+    (p : Pan) (k : Nat) :
+    (build (.mac args body rets oh s)).get p k =
+      if (p = .inp ∨ p = .uiIn) ∧ k < args.length then (args.getD k ⟨.nd, 0⟩).dflt else .nd := by
+  simp only [build]
+  rw [(purgePush_spec true body rets args.length 0 _).1, (buildBody_spec body 0 _).1]
+  simp only [St.get, initMac]
+  cases p <;> simp
+
+theorem build_inp (n : Node) (i : Nat) (h : i < n.arity) : (build n).get .inp i = n.dflt i := by
+  cases n with
+  | leaf f s => simp only [Node.arity] at h; simp [build, St.get, Node.dflt, h]
+  | mac args body rets oh s =>
+    simp only [Node.arity] at h
+    rw [build_root]; simp [Node.dflt, h]
+
+mutual
+theorem build_out_nd : ∀ (n : Node) (q : Path) (p : Pan) (k : Nat), (p = .out ∨ p = .uiOut) →
+    (build n).fn q p k = .nd
+  | .leaf _ _, q, p, k, hp => by
+    simp only [build]
+    rcases hp with hp | hp <;> simp [hp]
+  | .mac args body rets oh s, q, p, k, hp => by
+    simp only [build]
+    rw [(purgePush_spec true body rets args.length 0 _).2.1 q p k hp]
+    exact buildBody_out_nd body 0 _ (by
+      intro q' p' k' hp'
+      rcases hp' with hp' | hp' <;> subst hp' <;> cases q' <;> simp [initMac]) q p k hp
+theorem buildBody_out_nd : ∀ (ns : List Node) (j : Nat) (σ : St),
+    (∀ q p k, (p = .out ∨ p = .uiOut) → σ.fn q p k = .nd) →
+    ∀ q p k, (p = .out ∨ p = .uiOut) → (buildBody ns j σ).fn q p k = .nd
+  | [], _, σ, h, q, p, k, hp => by simpa [buildBody] using h q p k hp
+  | n :: ns, j, σ, h, q, p, k, hp => by
+    simp only [buildBody]
+    apply buildBody_out_nd ns (j + 1) _ _ q p k hp
+    intro q' p' k' hp'
+    cases q' with
+    | nil => simpa [St.graft] using h [] p' k' hp'
+    | cons a r =>
+      by_cases ha : a = j
+      · subst ha
+        simp only [St.graft, if_true]
+        rw [(applyConsts_spec n n.srcs 0 (build n)).1 r p' k' hp']
+        exact build_out_nd n r p' k' hp'
+      · simpa [St.graft, ha] using h (a :: r) p' k' hp'
+end
+
+mutual
+theorem outSync_of_nd : ∀ (n : Node) (σ : St), (∀ q p k, (p = .out ∨ p = .uiOut) → σ.fn q p k = .nd) → OutSync n σ
+  | .leaf _ _, _, _ => by simp [OutSync]
+  | .mac _ body rets _ _, σ, h => by
+    simp only [OutSync]
+    refine ⟨?_, outSyncBody_of_nd body 0 σ h⟩
+    intro r x _ _
+    have h1 : σ.get .out r = .nd := h [] .out r (Or.inl rfl)
+    rw [h1]
+    cases x with
+    | arg k => exact (h [] .uiOut k (Or.inr rfl)).symm
+    | out j o => exact (h [j] .out o (Or.inl rfl)).symm
+theorem outSyncBody_of_nd : ∀ (ns : List Node) (j : Nat) (σ : St),
+    (∀ q p k, (p = .out ∨ p = .uiOut) → σ.fn q p k = .nd) → OutSyncBody ns j σ
+  | [], _, _, _ => by simp [OutSyncBody]
+  | n :: ns, j, σ, h => by
+    simp only [OutSyncBody]
+    exact ⟨outSync_of_nd n (σ.sub j) (fun q p k hp => h (j :: q) p k hp), outSyncBody_of_nd ns (j + 1) σ h⟩
+end
+
+theorem wfBody_get (na : Nat) (nouts : Nat → Nat) (ns : List Node) (j t : Nat) (n : Node)
+    (hwf : WFBody na nouts ns j) (hn : ns[t]? = some n) :
+    WF n ∧ n.srcs.length = n.arity ∧ nouts (j + t) = n.nout ∧
+      ∀ i s, n.srcs[i]? = some s → SrcWF na nouts (j + t) n i s := by
+  induction ns generalizing j t with
+  | nil => simp at hn
+  | cons m ns ih =>
+    simp only [WFBody] at hwf
+    cases t with
+    | zero =>
+      simp at hn; subst hn
+      exact ⟨hwf.1, hwf.2.1, hwf.2.2.1, hwf.2.2.2.1⟩
+    | succ t =>
+      have := ih (j + 1) t hwf.2.2.2.2 (by simpa using hn)
+      have e : j + 1 + t = j + (t + 1) := by omega
+      rw [e] at this
+      exact this
+
+mutual
+/-- right after construction every macro input holds the value of the channel it is linked to,
+every keyword value and class default is in place -/
+theorem build_inv : ∀ (n : Node), WF n → Inv true n (build n)
+  | .leaf _ _, _ => by simp [Inv]
+  | .mac args body rets oh s, hwf => by
+    simp only [WF] at hwf
+    simp only [Inv]
+    constructor
+    · intro k hk _
+      rw [build_root, build_root]; simp [hk]
+    · apply invBody_of_pointwise
+      intro t n hn
+      obtain ⟨hwn, har, _, hsw⟩ := wfBody_get _ _ body 0 t n hwf.1 hn
+      rw [Nat.zero_add] at hsw ⊢
+      simp only [build]
+      obtain ⟨p1, _, p3, p4⟩ := purgePush_spec true body rets args.length 0
+        (buildBody body 0 (initMac args))
+      obtain ⟨_, b2, _⟩ := buildBody_spec body 0 (initMac args)
+      have hsub := b2 t n hn
+      rw [Nat.zero_add] at hsub
+      obtain ⟨_, c2, c3⟩ := applyConsts_spec n n.srcs 0 (build n)
+      constructor
+      · apply p3 t n hn
+        rw [hsub]
+        exact c2 true (buildL_inv body _ _ 0 hwf.1 t n hn)
+      · intro i s' hs'
+        have hsa : srcAt body t i = some s' := by simp [srcAt, hn, hs']
+        have hval := p4 t i
+        rw [hsa] at hval
+        have hil : i < n.arity := by
+          rw [← har]
+          exact (List.getElem?_eq_some_iff.mp hs').1
+        cases s' with
+        | arg k =>
+          simp only [SrcOk]
+          intro hk
+          have hka : k < args.length := by
+            have := hsw i _ hs'; simpa [SrcWF] using this
+          simp only at hval
+          rw [hval, if_pos ⟨Nat.zero_le _, by omega, hk⟩, p1]
+        | out a b => trivial
+        | const v =>
+          simp only [SrcOk]
+          intro _
+          simp only at hval
+          rw [hval, hsub, c3 i]
+          simp [hs']
+        | none =>
+          simp only [SrcOk]
+          intro _
+          simp only at hval
+          rw [hval, hsub, c3 i]
+          simp only [Nat.zero_le, if_true, Nat.sub_zero, hs']
+          exact build_inp n i hil
+theorem buildL_inv : ∀ (ns : List Node) (na : Nat) (nouts : Nat → Nat) (j : Nat), WFBody na nouts ns j →
+    ∀ (t : Nat) (n : Node), ns[t]? = some n → Inv true n (build n)
+  | [], _, _, _, _, t, n, hn => by simp at hn
+  | m :: ns, na, nouts, j, hwf, t, n, hn => by
+    simp only [WFBody] at hwf
+    cases t with
+    | zero =>
+      simp at hn; subst hn
+      exact build_inv _ hwf.1
+    | succ t => exact buildL_inv ns na nouts (j + 1) hwf.2.2.2.2 t n (by simpa using hn)
+end
+
+theorem build_outSync (n : Node) : OutSync n (build n) := outSync_of_nd n _ (build_out_nd n)
+
+
+/-! ## histories -/
+
+/-- the states a macro instance goes through: construction, assignments to its own inputs
+(`macro.inputs.x = v`, keyword arguments of the constructor or of a call), successful runs -/
+inductive Reach (n : Node) : St → Prop
+  | build : Reach n (build n)
+  | setIn {σ : St} (k : Nat) (v : Val) : Reach n σ → Reach n (setIn n σ k v)
+  | run {σ σ' : St} : Reach n σ → run n σ = some σ' → Reach n σ'
+
+theorem anyNd_false_iff (f : Nat → Val) (n : Nat) : anyNd f n = false ↔ ∀ k, k < n → f k ≠ .nd := by
+  constructor
+  · intro h k hk
+    simp only [anyNd, List.any_eq_false, List.mem_range] at h
+    exact ne_nd_of_isNd_false (by simpa using h k hk)
+  · exact anyNd_false f n
+
+theorem run_some_inputs (n : Node) (σ σ' : St) (h : run n σ = some σ') : ∀ i, i < n.arity → σ.get .inp i ≠ .nd := by
+  cases n with
+  | leaf f srcs =>
+    simp only [run] at h
+    split at h
+    · cases h
+    · rename_i hnd
+      exact (anyNd_false_iff _ _).mp (by simpa using hnd)
+  | mac args body rets oh s =>
+    simp only [run] at h
+    split at h
+    · cases h
+    · rename_i hnd
+      exact (anyNd_false_iff _ _).mp (by simpa using hnd)
+
+theorem reach_inv (n : Node) (hwf : WF n) (hnd : NoDupH n) (σ : St) (h : Reach n σ) :
+    Inv true n σ ∧ OutSync n σ := by
+  induction h with
+  | build => exact ⟨build_inv n hwf, build_outSync n⟩
+  | setIn k v _ ih => exact ⟨setIn_inv true n _ k v ih.1, setIn_outSync n _ k v ih.2⟩
+  | run _ hrun ih =>
+    rename_i σ0 σ1
+    obtain ⟨σ2, h2, _, hi, ho, _⟩ := run_value n σ0 (σ0.get .inp) hwf hnd ih.1 (fun _ _ => rfl)
+      (run_some_inputs n σ0 σ1 hrun)
+    rw [hrun] at h2
+    cases h2
+    exact ⟨hi, ho⟩
+
+/-- what `Inv` says about the macro's own inputs, in terms of the link made by the purge rule -/
+theorem inv_link {h : Bool} {args body rets oh s} {σ : St} (hinv : Inv h (.mac args body rets oh s) σ)
+    (k : Nat) (hk : k < args.length) :
+    match link body rets k with
+    | .ui => σ.get .uiIn k = σ.get .inp k
+    | .child j i => (σ.sub j).get .inp i = σ.get .inp k
+    | .gone => True := by
+  simp only [Inv] at hinv
+  cases hl : link body rets k with
+  | ui => exact hinv.1 k hk (by simp [kept, hl])
+  | gone => trivial
+  | child j i =>
+    simp only
+    obtain ⟨hkf, hsrc, _⟩ := link_child hl
+    -- walk to child j
+    have key : ∀ (ns : List Node) (b : Nat), InvBody h (kept body rets) (σ.get .inp) ns b σ →
+        ∀ (t : Nat) (n : Node), ns[t]? = some n → ∀ i' s', n.srcs[i']? = some s' →
+          SrcOk (kept body rets) (σ.get .inp) h n (σ.sub (b + t)) i' s' := by
+      intro ns
+      induction ns with
+      | nil => intro b _ t n hn; simp at hn
+      | cons m ns ih =>
+        intro b hb t n hn i' s' hs'
+        simp only [InvBody] at hb
+        cases t with
+        | zero => simp at hn; subst hn; exact hb.2.1 i' s' hs'
+        | succ t =>
+          have := ih (b + 1) hb.2.2 t n (by simpa using hn) i' s' hs'
+          have e : b + 1 + t = b + (t + 1) := by omega
+          rw [e] at this; exact this
+    unfold srcAt at hsrc
+    cases hb : body[j]? with
+    | none => simp [hb] at hsrc
+    | some n =>
+      simp only [hb] at hsrc
+      have := key body 0 hinv.2 j n hb i _ hsrc
+      simp only [SrcOk, Nat.zero_add] at this
+      exact this hkf
+
+/-! ## duplicate returns -/
+
+theorem hasDup_false (rets : List Ret) (h : hasDup rets = false) : rets.Nodup := by
+  induction rets with
+  | nil => simp
+  | cons r rs ih =>
+    simp only [hasDup, Bool.or_eq_false_iff] at h
+    rw [List.nodup_cons]
+    exact ⟨by simpa using h.1, ih h.2⟩
+
+mutual
+/-- with the proposed repair a definition that can be instantiated returns no channel twice -/
+theorem buildErr_repaired_nodup : ∀ (n : Node), buildErr Cfg.repaired n = false → NoDupH n
+  | .leaf _ _, _ => by simp [NoDupH]
+  | .mac args body rets oh s, h => by
+    simp only [buildErr, Bool.or_eq_false_iff, Cfg.repaired, Bool.true_and] at h
+    simp only [NoDupH]
+    exact ⟨hasDup_false rets h.1.2, bodyErr_repaired_nodup body body h.1.1.1⟩
+theorem bodyErr_repaired_nodup (whole : List Node) : ∀ (ns : List Node), bodyErr Cfg.repaired whole ns = false → NoDupHB ns
+  | [], _ => by simp [NoDupHB]
+  | n :: ns, h => by
+    simp only [bodyErr, Bool.or_eq_false_iff] at h
+    simp only [NoDupHB]
+    exact ⟨buildErr_repaired_nodup n h.1.1, bodyErr_repaired_nodup whole ns h.2⟩
+end
+
+/-! ## isolation -/
+
+theorem mem_kidConns (kp : Nat → Bool) (ss : List Src) (i0 i : Nat) (p : Peer) (h : (i, p) ∈ kidConns kp ss i0) :
+    i0 ≤ i ∧ match p with
+      | .ui k => kp k = true ∧ ss[i - i0]? = some (.arg k)
+      | .kid j o => ss[i - i0]? = some (.out j o) := by
+  induction ss generalizing i0 with
+  | nil => simp [kidConns] at h
+  | cons s ss ih =>
+    have step : ∀ (h' : (i, p) ∈ kidConns kp ss (i0 + 1)), i0 ≤ i ∧ match p with
+        | .ui k => kp k = true ∧ (s :: ss)[i - i0]? = some (.arg k)
+        | .kid j o => (s :: ss)[i - i0]? = some (.out j o) := by
+      intro h'
+      obtain ⟨h1, h2⟩ := ih (i0 + 1) h'
+      have e : i - i0 = (i - (i0 + 1)) + 1 := by omega
+      refine ⟨by omega, ?_⟩
+      rw [e]
+      cases p <;> simpa using h2
+    cases s with
+    | arg k =>
+      simp only [kidConns, List.mem_append] at h
+      rcases h with h | h
+      · by_cases hk : kp k = true
+        · simp [hk] at h
+          obtain ⟨rfl, rfl⟩ := h
+          simp [hk]
+        · simp [hk] at h
+      · exact step h
+    | out j o =>
+      simp only [kidConns, List.mem_cons] at h
+      rcases h with h | h
+      · cases h; simp
+      · exact step h
+    | const v => simp only [kidConns] at h; exact step h
+    | none => simp only [kidConns] at h; exact step h
+
 end PwVerif.Macro
